@@ -171,16 +171,17 @@ int main(int argc, char** argv) {
   Ctx ctx(args);
   const bool th = args.thorough();
   ctx.name_metric(0, "worst_error_over_E_plus_half"); ctx.name_metric(1, "pairs_in_exactness_regime"); ctx.name_metric(2, "pairs_outside_domain_skipped"); ctx.name_metric(3, "scope_pairs");
-  struct It { int kind; uint64_t N; CpuCfg cfg; int a, b; };
+  struct It { int kind; uint64_t N; CpuCfg cfg; int a, b; int R; };
   std::vector<It> items;
   auto cf = cfgs(th);
   std::vector<uint64_t> Ns = {4096, 1024, 256, 64, 32, 16, 8, 4, 2};
-  if (th) for (uint64_t N : {65536, 32768, 16384, 8192}) for (auto& c : cfgs(false)) for (int pa = 0; pa < NPAT; pa += 2) items.push_back({2, N, c, pa, pa + 1});  // 6 x 12 x 3 pairs
-  for (uint64_t N : Ns) for (auto& c : cf) for (int pa = 0; pa < NPAT; ++pa) items.push_back({0, N, c, pa, pa + 1});
-  for (auto& c : cf) { for (int p = 0; p < 16; ++p) items.push_back({1, 4, c, p, 16}); items.push_back({1, 2, c, 0, 1}); }
+  if (th) for (uint64_t N : {65536, 32768, 16384, 8192}) for (auto& c : cfgs(false)) for (int pa = 0; pa < NPAT; pa += 2) items.push_back({2, N, c, pa, pa + 1, 0});  // 6 x 12 x 3 pairs
+  for (uint64_t N : Ns) for (auto& c : cf) for (int pa = 0; pa < NPAT; ++pa) items.push_back({0, N, c, pa, pa + 1, 0});
+  for (auto& c : cf) { for (int p = 0; p < 16; ++p) items.push_back({1, 4, c, p, 16, 2}); items.push_back({1, 2, c, 0, 1, 3}); }
+  if (th) for (auto& c : cfgs(false)) { for (int p = 0; p < 64; ++p) items.push_back({1, 4, c, p, 64, 3}); for (int p = 0; p < 256; ++p) items.push_back({1, 8, c, p, 256, 1}); }  // complete scopes N=4 [-3,3], N=8 [-1,1]
   ctx.parallel(items.size(), [&](uint64_t i) {
     const It& it = items[i];
-    if (it.kind == 1) run_scope(ctx, it.N, it.N == 2 ? 3 : 2, it.cfg, it.a, it.b);
+    if (it.kind == 1) run_scope(ctx, it.N, it.R, it.cfg, it.a, it.b);
     else run_N(ctx, it.N, it.cfg, it.a, it.b, it.kind == 2);
   });
   ctx.assumptions = {"only operand pairs inside the documented domain are generated (the generator evaluates the norms exactly); pairs outside are skipped and counted",
@@ -188,6 +189,6 @@ int main(int argc, char** argv) {
                      "'every input in the budget' is decided on the pattern alphabet and the complete small scopes; the FFT's worst case over all real vectors is not enumerable"};
   return ctx.finish("exploration",
                     "N x cfg x 12x12 operand patterns (constant, alternating, root-resonant sign patterns, monomials, ramp, seeded) x 3 magnitude regimes (2^50-1 limit with the largest admissible partner; both near 2^26/sqrt(N); E just below 1/2) x 3 paths x svp shapes "
-                    "((res,a) in {0..3}^2 x 2 strides for N<=64); complete scopes N=2 [-3,3] and N=4 [-2,2] (all 392k pairs); distinct = distinct case ids",
+                    "((res,a) in {0..3}^2 x 2 strides for N<=64); complete scopes N=2 [-3,3] and N=4 [-2,2] (all 392k pairs; thorough adds N=4 [-3,3] and N=8 [-1,1], 48.8M pairs); distinct = distinct case ids",
                     true);
 }
